@@ -543,9 +543,10 @@ func neoRound(t *testing.T, r *kit.Run, n, m, cases int) {
 func TestC24(t *testing.T) {
 	r := kit.Start(t, "C24", "exploration")
 	defer r.Finish()
-	r.Rule("ont: for every tracked-set size N: calibration (honest all-distinct k=0..N) then bookkeeper lists of shapes {subset around threshold, superset with foreign keys, one key repeated, few distinct + repeats, invalid/stolen signatures, honest quorum with shuffled/extra signatures, bookkeeper list longer than the signature list (0/1/T-1 signatures), signature list longer than the bookkeeper list (garbage/repeated/foreign/empty padding), random kind vectors with random truncation} through syncCrossChainMsg and ImportOuterTransfer; neo: for every (n,m): witnesses of shapes {honest, below, one key repeated, below+repeats, below+foreign/bad, other committee's script, same keys with 1-of-n script, random}; distinct = (router, N or (n,m), shape, kind vector, entry, outcome)")
+	r.Rule("ont: for every tracked-set size N: calibration (honest all-distinct k=0..N) then bookkeeper lists of shapes {subset around threshold, superset with foreign keys, one key repeated, few distinct + repeats, invalid/stolen signatures, honest quorum with shuffled/extra signatures, bookkeeper list longer than the signature list (0/1/T-1 signatures), signature list longer than the bookkeeper list (garbage/repeated/foreign/empty padding), random kind vectors with random truncation} through syncCrossChainMsg and ImportOuterTransfer; neo: for every (n,m): witnesses of shapes {honest, below, one key repeated, below+repeats, below+foreign/bad, other committee's script, same keys with 1-of-n script, random}; neo3/neo3legacy additionally: state-validator sets built over 2-4 approved registration rounds that re-submit the first / middle / last / a random tracked key (sometimes with a new key), then witnesses over the stored list in which every listed copy of a re-submitted key signs / distinct keys sign / one signature short; distinct = (router, N or (n,m), shape, kind vector, entry, outcome)")
 	r.Assume("ont: the property does not fix 'the required number'; it is taken as the smallest k for which the router accepts an honest message signed by k distinct tracked members (calibrated per N on the running code; documented formula ceil(N/3) is recorded for comparison) and must be >= 1")
 	r.Assume("neo: the required number is the m of the tracked m-of-n consensus script; neo3/neo3legacy: the k for which an honest k-of-n witness of k distinct state validators is accepted (calibrated per n) and it must not be smaller than NEO N3's own quorum for designated state validators, n-(n-1)/3")
+	r.Assume("neo3 re-registration part: the model owns the expectation (tracked set = distinct registered keys D, required distinct signers = D-(D-1)/3); the stored list is read only to build the submitter's witness")
 	r.Assume("signature validity is judged with ontology-crypto / neo-gogogo verification of each listed signature against each tracked member key")
 	r.Assume("only 'accepted => enough distinct tracked valid signers' is asserted; refusals of sufficient lists (e.g. out-of-order NEO signatures) are not violations")
 
@@ -578,6 +579,12 @@ func TestC24(t *testing.T) {
 		n3Round(t, r, n, r.N(40, 200), n3T)
 		n3lRound(t, r, n, r.N(40, 200), n3lT)
 	}
+	for d := 2; d <= r.N(7, 12); d++ {
+		for rep := 0; rep < r.N(4, 12); rep++ {
+			n3Reregistration(t, r, d, rep, r.N(12, 30))
+			n3lReregistration(t, r, d, rep, r.N(12, 30))
+		}
+	}
 	r.Set("neo3_threshold_by_n", fmt.Sprint(n3T))
 	r.Set("neo3legacy_threshold_by_n", fmt.Sprint(n3lT))
 	r.Set("routers_covered", []string{"ont (syncCrossChainMsg + ImportOuterTransfer)", "neo (VerifyCrossChainMsgSig called directly on contract state installed by syncGenesisHeader)",
@@ -587,6 +594,13 @@ func TestC24(t *testing.T) {
 		r.Require(R+"_accepted", 10)
 		r.Require(R+"_refused", 40)
 		r.Require(R+"_shape_one-key-repeated", 8)
+		r.Require(R+"_reregistration_rounds", 12)
+		r.Require(R+"_resubmitted_first", 4)
+		r.Require(R+"_resubmitted_middle", 2)
+		r.Require(R+"_resubmitted_last", 4)
+		r.Require(R+"_rereg_shape_every-listed-copy-signs", 30)
+		r.Require(R+"_rereg_accepted", 20)
+		r.Require(R+"_rereg_refused", 20)
 	}
 	r.Require("ont_honest_accepted", maxN)
 	r.Require("ont_refused_below_threshold", maxN*5)
